@@ -8,7 +8,7 @@
    caller access/channel operation/ReleaseBytes of Resume, Close, Yield, end,
    Start is one action of the goroutine that performs it:
 
-   Resume/Close(t) by g : R1 lock t | R2 test status (else unlock, error) | R3 lock g (status check)
+   Resume/Close(t) by g : R1 lock t | R2 test status (else unlock, error) | R3 lock g (status check), or refuse: resumer chain too deep (unlock t, error)
                           R4 t.caller:=g; t.status:=OK | R5 unlock t | R6 unlock g
                           R7 send t.ch | R8 recv g.ch
    Yield by g           : Y1 lock g | Y2 status check, c:=caller (nil => unlock, error) | Y3 lock c (check)
@@ -69,6 +69,7 @@ Inductive label :=
 | LCreate | LResume (t v : nat) | LClose (t : nat) | LYield (v : nat) | LFinish (m : msg) | LStatus (t : nat)
 | LHResume (t : nat) | LHYield          (* old code: decided by a __close handler inside the locked section of end *)
 | LHDone (m : msg)                      (* repaired code: the handler phase of end is over; m will be sent *)
+| LRefuse                               (* Resume gives up after the status test: chain of resumers too deep ("stack overflow") *)
 | LStep (code : nat)                    (* the atomic action numbered [code] of the goroutine's pc *)
 | LRdv.                                 (* rendezvous, named by the sender *)
 
@@ -165,6 +166,9 @@ Definition step (cf : cfg) (s : state) (a : action) : option state :=
   | R2 k t v, LStep cd => if negb (cd =? 2) then None else
       if st_eqb (status (th s t)) Suspended then Some (setpc s g (R3 k t v))
       else unlock s g t Lua
+  (* since 2f4d6a9: after the status test Resume refuses when caller.resumeDepth is at the bound:
+     unlock t, return the error "stack overflow" to Lua; no other state changes *)
+  | R3 Res t v, LRefuse => unlock s g t Lua
   | R3 k t v, LStep cd => if negb (cd =? 3) then None else
       if st_eqb (status (th s g)) OK then lock s g g (R4 k t v)
       else if is_free s g then Some (setpc s g Panicked) else None
@@ -289,7 +293,7 @@ Definition offers (cf : cfg) (s : state) (g : nat) : list label :=
   match pc s g with
   | Lua => [LCreate; LFinish (MVal 0); LHDone MTerm]
   | E0 _ => [LStep 20; LHDone MTerm]
-  | R1 _ _ _ => [LStep 1] | R2 _ _ _ => [LStep 2] | R3 _ _ _ => [LStep 3] | R4 _ _ _ => [LStep 4]
+  | R1 _ _ _ => [LStep 1] | R2 _ _ _ => [LStep 2] | R3 _ _ _ => [LStep 3; LRefuse] | R4 _ _ _ => [LStep 4]
   | R5 _ _ _ => [LStep 5] | R6 _ _ _ => [LStep 6] | R7 _ _ _ => [LRdv]
   | Y1 _ => [LStep 11] | Y2 _ => [LStep 12] | Y3 _ _ => [LStep 13] | Y4 _ _ => [LStep 14]
   | Y5 _ _ => [LStep 15] | Y6 _ _ => [LStep 16] | Y7 _ _ => [LRdv]
